@@ -23,7 +23,7 @@ COQ_FILES = ['Props/C18.v']
 ASSUMPTIONS = ['values are compared structurally (equal classes and attribute values), not by object identity']
 
 CYCLES = ['&a [*a]', '&a {k: *a}', 'x: &a [1, *a]', '&a [&b [*a, *b]]', 'k: &a {a: 1, b: *a}', '&a [[[*a]]]',
-          '- &a [x, *a]\n- y']
+          '- &a [x, *a]\n- y', '&a {? *a : 1}', 'k: &a {? [*a] : v}']
 
 
 def canon(outcome):
